@@ -1,4 +1,4 @@
-package main
+package c09
 
 // C09 — frozen attribute pools for the round-trip oracle.
 //
